@@ -177,6 +177,13 @@ func (g *Gen) Op() *Op {
 	case n < 25:
 		o.Kind = "putBucketAcl"
 		o.Canned = g.pick([]string{"private", "public-read", "public-read-write"})
+		if g.R.Chance(35) {
+			// the ACL given by grant headers instead of a canned one
+			o.Kind, o.Canned = "putBucketAclGrants", ""
+			for i := 1 + g.R.Intn(3); i > 0; i-- {
+				o.Grants = append(o.Grants, [2]string{g.pick([]string{"FULL_CONTROL", "READ", "READ_ACP", "WRITE", "WRITE_ACP"}), g.Accts[1+g.R.Intn(len(g.Accts)-1)].Access})
+			}
+		}
 	case n < 27:
 		o.Kind = "getBucketAcl"
 	case n < 29:
